@@ -212,7 +212,7 @@ def run_driver(driver, text, workdir):
     os.makedirs(os.path.join(out, '+gt'))
     os.makedirs(os.path.join(workdir, 'cwd'))
     src = os.path.join(workdir, 'in.i')
-    with open(src, 'w') as f:
+    with open(src, 'wb' if isinstance(text, bytes) else 'w') as f:
         f.write(text)
     tpl = os.path.join(workdir, 'tpl.example')
     with open(tpl, 'w') as f:
@@ -273,7 +273,31 @@ def run_driver(driver, text, workdir):
 DRIVERS = ['pybind.wrap', 'pybind.wrap_submodule', 'matlab.wrap', 'script.pybind', 'script.pybind.submodule', 'script.matlab']
 
 
+def check_bytes_case(case):
+    """An interface file that is not valid UTF-8 (one stray byte between two tokens or inside an identifier): every
+    file-writing driver must fail and leave the outputs alone."""
+    data = bytes.fromhex(case['hex'])
+    viol = []
+    wd = gen.mkdtemp('c07b')
+    try:
+        for drv in DRIVERS:
+            st, changed = run_driver(drv, data, wd)
+            if st == 'hang':
+                viol.append({'sig': 'C07|hang|%s|invalid-utf8' % drv, 'msg': '%s did not terminate on %r' % (drv, data)})
+            elif st == 'ok':
+                viol.append({'sig': 'C07|invalid-utf8-accepted|%s' % drv,
+                             'msg': '%s completed on an input that is not valid UTF-8 (%s) and wrote %r\n--- input bytes ---\n%r'
+                                    % (drv, case['label'], changed, data)})
+            elif changed:
+                viol.append({'sig': 'C07|failed-run-touched-outputs|%s' % drv, 'msg': '%s failed (%s) but created/modified %r' % (drv, st, changed)})
+    finally:
+        shutil.rmtree(wd, ignore_errors=True)
+    return {'viol': viol, 'status': 'rejected:bytes', 'nruns': len(DRIVERS)}
+
+
 def check_case(case):
+    if case.get('hex'):
+        return check_bytes_case(case)
     toks = case['toks']
     text = render(toks)
     label = case['label']
@@ -327,6 +351,9 @@ def check_case(case):
                     add('C07|hang|%s|%s' % (drv, label[0]), '%s did not terminate within %d s' % (drv, HORIZON))
                 elif st.startswith('raised') and changed:
                     add('C07|failed-run-touched-outputs|%s' % drv, '%s failed (%s) but created/modified %r' % (drv, st, changed))
+                elif st == 'ok' and case.get('drivers_must_reject'):
+                    add('C07|validation-error-not-raised|%s|%s' % (drv, label[0]),
+                        '%s completed on an input that breaks a rule of the dialect (%s) and wrote %r' % (drv, label[0], changed))
                 elif st == 'ok' and case.get('matlab_must_reject') and drv in MATLAB_DRIVERS:
                     add('C07|validation-error-not-raised|%s|%s' % (drv, label[0].split('/')[1] if '/' in label[0] else label[0]),
                         '%s completed on an input whose defaulted parameters are not trailing (%s) and wrote %r' % (drv, label[0], changed))
@@ -456,6 +483,10 @@ VALIDATION = {
     'binary-operator-two-args': 'class A { A operator + ( const A & a , const A & b ) const ; } ;',
     'unary-operator-not-plus-minus': 'class A { A operator * ( ) const ; } ;',
     'operator-mixed-types': 'class A { A operator + ( const B & b ) const ; } ;',
+    # accepted by the grammar, rejected when the templates are instantiated
+    'typedef-arity/class-surplus': 'template < T > class Box { Box ( ) ; } ; typedef Box < double , int > BoxD ;',
+    'typedef-arity/class-too-few': 'template < T , U > class Box { Box ( ) ; } ; typedef Box < double > BoxD ;',
+    'typedef-arity/unknown-template': 'class A { A ( ) ; } ; typedef Missing < double > MissingD ;',
 }
 
 
@@ -512,9 +543,20 @@ def run(ctx):
     for vname, text in VALIDATION.items():
         cases.append({'seed': 'validation', 'label': [vname, 0], 'toks': text.split(), 'drivers': DRIVERS,
                       'matlab_must_reject': vname.startswith('non-trailing-default'),
-                      'parser_must_reject': not vname.startswith('non-trailing-default')})
+                      'parser_must_reject': not vname.startswith(('non-trailing-default', 'typedef-arity')),
+                      'drivers_must_reject': vname.startswith('typedef-arity')})
+    # one stray byte that makes the file invalid UTF-8, at every token gap and inside the first identifier of two seeds
+    for name in ('tiny-class', 'tiny-func'):
+        toks = seed_tokens(name)
+        for g in range(len(toks) + 1):
+            for b in (b'\xff', b'\xe9', b'\xc3'):
+                data = ' '.join(toks[:g]).encode() + b' ' + b + b' ' + ' '.join(toks[g:]).encode() + b'\n'
+                cases.append({'seed': name, 'label': ['invalid-utf8:%s' % b.hex(), g], 'toks': [], 'hex': data.hex()})
+                if g < len(toks) and toks[g][0].isalpha() and len(toks[g]) > 1:
+                    data = ' '.join(toks[:g]).encode() + b' ' + toks[g][:1].encode() + b + toks[g][1:].encode() + b' ' + ' '.join(toks[g + 1:]).encode() + b'\n'
+                    cases.append({'seed': name, 'label': ['invalid-utf8-inside-identifier:%s' % b.hex(), g], 'toks': [], 'hex': data.hex()})
     res = ctx.map(check_case, cases)
-    rejected = [c for c, r in res if str(r.get('status', '')).startswith('rejected')]
+    rejected = [c for c, r in res if str(r.get('status', '')).startswith('rejected') and not c.get('hex')]
     accepted = sum(1 for c, r in res if r.get('status') == 'accepted')
     # real subprocess runs on a spread of rejected inputs
     sub = []
@@ -525,9 +567,9 @@ def run(ctx):
     nruns = sum(r.get('nruns', 0) for _, r in res)
     return {
         'evaluations': len(cases) + len(sub),
-        'distinct_nontrivial': len({' '.join(c['toks']) for c in cases}),
+        'distinct_nontrivial': len({' '.join(c['toks']) + c.get('hex', '') for c in cases}),
         'rule': 'every delete / duplicate / adjacent swap / truncation (token boundary and mid-token) / insertion of %d stray '
-                'tokens at every gap, on %d seed modules%s, plus %d validation-error inputs; distinct by corrupted token '
+                'tokens at every gap, on %d seed modules%s, plus %d validation-error inputs and a stray non-UTF-8 byte at every gap / inside identifiers of two seeds; distinct by corrupted token '
                 'sequence; file-writing drivers (%s) on every %s fault; %d real subprocess runs of the scripts'
                 % (len(stray), len(names), ' + two-fault combinations on the small seeds' if ctx.thorough else '', len(VALIDATION),
                    ', '.join(DRIVERS), '4th' if ctx.thorough else '12th', len(sub)),
